@@ -77,7 +77,10 @@ Definition exact (c : case) : bool :=
       && option_eqb codec_res_eqb
            (if typecheck Z ps args && no_results args then Some (codec Z Z zenc zdec ps args) else None)
            (ocodec o)
-      && ohdr o && onames o
+      && ohdr o
+      (* same arguments => same slice => same task names; when the model says the
+         arguments change in transit the names are free *)
+      && (onames o || negb (outcome_eqb (transport Z Z zenc zdec known compiled ps args) (OArrived args)))
   end.
 
 (* ---- the property, judged on the implementation's output alone ---- *)
@@ -96,6 +99,23 @@ Definition diff_ok (l r : list string) (o : dobs) : bool :=
         end
   end.
 
+(* what FuncValue.Apply hands to the Go function: an untyped nil for a
+   non-interface parameter becomes that type's zero value (id 0 is the driver's
+   "no elements" value of slices and maps) *)
+Definition applied1 (p : ptype) (a : zarg) : zarg :=
+  match a, p with
+  | ANil, PC c => if is_pointer c || negb (gob_handles c) then ATNil c else AVal c 0
+  | _, _ => a
+  end.
+Fixpoint applied (ps : list ptype) (args : list zarg) : list zarg :=
+  match ps, args with
+  | p :: ps', a :: args' => applied1 p a :: applied ps' args'
+  | _, _ => args
+  end.
+(* the Func sees on the worker what it saw on the driver *)
+Definition same_applied (ps : list ptype) (a b : list zarg) : bool :=
+  args_eqb (applied ps a) (applied ps b).
+
 Definition inv_ok (ps : list ptype) (args : list zarg) (known compiled : list Z) (o : iobs) : bool :=
   if negb (typecheck Z ps args) then
     (* argument problems fail fast: rejected by Invocation() *)
@@ -103,11 +123,21 @@ Definition inv_ok (ps : list ptype) (args : list zarg) (known compiled : list Z)
   else if negb (results_in Z known args && results_in Z compiled args) then true
   else if forallb2 (must_arrive Z) ps args then
     (* arrives intact, and compiling there gives the driver's task names *)
-    outcome_eqb (oworld o) (OArrived args) && onames o && ohdr o
-    && match ocodec o with Some c => codec_res_eqb c (COk args) | None => true end
+    match oworld o with OArrived a => same_applied ps a args | _ => false end
+    && onames o && ohdr o
+    && match ocodec o with
+       | Some (COk a) => same_applied ps a args
+       | Some _ => false
+       | None => true
+       end
   else if existsb2 (unencodable Z) ps args then
-    (* a prompt fatal error: no panic, no machine requested, nothing sent *)
-    outcome_eqb (oworld o) ORunErr
+    (* a prompt fatal error: no panic, no machine requested, nothing sent
+       (an implementation that does get the arguments across intact is not at fault) *)
+    match oworld o with
+    | ORunErr => true
+    | OArrived a => same_applied ps a args && onames o
+    | _ => false
+    end
   else true.
 
 Definition ok (c : case) : bool :=
